@@ -4,6 +4,7 @@ package main
 // resolution (decision tables of TagSource / schemeToRecv, sender resolution order, message body).
 
 import (
+	"golang.org/x/tools/go/cfg"
 	"fmt"
 	"go/ast"
 	"go/token"
@@ -383,6 +384,119 @@ func rulePollLookup(c *Ctx) {
 		}
 		return true
 	})
+	// delivery: the only channel send in Process is the message body on the looked-up listener's
+	// channel, outside any loop (one listener); Done(true) is reachable only through that send and
+	// Done(false) only without it
+	{
+		var connObj types.Object
+		ast.Inspect(proc.Body, func(n ast.Node) bool {
+			as, ok := n.(*ast.AssignStmt)
+			if !ok || len(as.Rhs) != 1 || len(as.Lhs) < 1 {
+				return true
+			}
+			if call, ok := ast.Unparen(as.Rhs[0]).(*ast.CallExpr); ok {
+				if fn, ok := calleeOf(info, call).(*types.Func); ok && fn == info.Defs[get.Name] {
+					if id, ok := as.Lhs[0].(*ast.Ident); ok {
+						connObj = info.Defs[id]
+						if connObj == nil {
+							connObj = info.Uses[id]
+						}
+					}
+				}
+			}
+			return true
+		})
+		nSend, okSend := 0, connObj != nil
+		ast.Inspect(proc.Body, func(n ast.Node) bool {
+			snd, ok := n.(*ast.SendStmt)
+			if !ok {
+				return true
+			}
+			nSend++
+			se, isSel := ast.Unparen(snd.Chan).(*ast.SelectorExpr)
+			if !isSel || se.Sel.Name != "ch" || !isObj(info, se.X, connObj) {
+				okSend = false
+			}
+			if !strings.HasSuffix(exprString(snd.Value), ".Body") {
+				okSend = false
+			}
+			for _, a := range enclosing(proc.Body, snd) {
+				switch a.(type) {
+				case *ast.ForStmt, *ast.RangeStmt:
+					okSend = false
+				}
+			}
+			return true
+		})
+		c.check(okSend && nSend == 1, "poll/process/send-target", proc.Pos(), "the body is sent once, on the channel of the listener that was looked up", "Process sends on a channel other than the looked-up listener's (or to more than one listener): a message can reach a listener it was not addressed to")
+		g := buildCFG(pk, proc.Body)
+		gen := func(n ast.Node) []string {
+			if _, ok := n.(*ast.SendStmt); ok {
+				return []string{"sent"}
+			}
+			return nil
+		}
+		isDone := func(n ast.Node) (bool, string) {
+			for _, call := range callsIn(n) {
+				if se, ok := ast.Unparen(call.Fun).(*ast.SelectorExpr); ok && se.Sel.Name == "Done" && len(call.Args) >= 1 {
+					return true, exprString(call.Args[0])
+				}
+			}
+			return false, ""
+		}
+		facts := mustFacts(g, gen, nil, func(n ast.Node) bool { d, _ := isDone(n); return d })
+		// may-facts for the negative half: a Done(false) node must not be reachable from the send
+		reach := map[ast.Node]bool{}
+		{
+			var sendBlocks []*cfg.Block
+			for _, b := range g.Blocks {
+				for i, n := range b.Nodes {
+					if _, ok := n.(*ast.SendStmt); ok {
+						for _, m := range b.Nodes[i+1:] {
+							reach[m] = true
+						}
+						sendBlocks = append(sendBlocks, b)
+					}
+				}
+			}
+			seen := map[int32]bool{}
+			var walk func(b *cfg.Block)
+			walk = func(b *cfg.Block) {
+				for _, sc := range b.Succs {
+					if seen[sc.Index] {
+						continue
+					}
+					seen[sc.Index] = true
+					for _, n := range sc.Nodes {
+						reach[n] = true
+					}
+					walk(sc)
+				}
+			}
+			for _, b := range sendBlocks {
+				walk(b)
+			}
+		}
+		nTrue, okTrue, okFalse := 0, true, true
+		for n, f := range facts {
+			_, arg := isDone(n)
+			switch arg {
+			case "true":
+				nTrue++
+				if !f["sent"] {
+					okTrue = false
+				}
+			case "false":
+				if reach[n] {
+					okFalse = false
+				}
+			default:
+				okTrue = false
+			}
+		}
+		c.check(nTrue >= 1 && okTrue, "poll/process/delivered-iff-accepted", proc.Pos(), "Done(true) only after the listener's channel accepted the body", "Process reports a hand-off as delivered on a path where the looked-up listener's channel did not accept the message")
+		c.check(okFalse, "poll/process/failed-iff-not-sent", proc.Pos(), "Done(false) only on paths without a send", "Process reports a failed hand-off although the body was sent: the retry delivers the message twice")
+	}
 	c.check(notify, "poll/process/notify-exact-id", proc.Pos(), "a notification is delivered only to the listener with the exact id", "a notification may be handed to a listener whose id differs from the addressed id")
 }
 
@@ -570,14 +684,14 @@ func ruleSenderResolution(c *Ctx) {
 	}
 	c.check(fields["Data"] == "recv.Data" && fields["Body"] == "body" && fields["Type"] == "mesgType", "sender/message", msg.Pos(), "message = (task's message type, the resolved receiver's data, the body)", "the message handed to the plugin is not (mesgType, recv.Data, body): "+fmt.Sprint(fields))
 	// body shapes
-	var bodies []string
-	ast.Inspect(fd.Body, func(n ast.Node) bool {
-		if cl, ok := n.(*ast.CompositeLit); ok {
-			if _, isMap := info.Types[cl].Type.Underlying().(*types.Map); isMap && strings.Contains(types.TypeString(info.Types[cl].Type, nil), "interface") {
-				bodies = append(bodies, env.prov(cl))
-			}
+	// (the body may be built by a helper of the package that is handed the submission)
+	bodies := provsWithHelpers(pk, fd, func(cl *ast.CompositeLit) bool {
+		tv, ok := info.Types[cl]
+		if !ok {
+			return false
 		}
-		return true
+		_, isMap := tv.Type.Underlying().(*types.Map)
+		return isMap && strings.Contains(types.TypeString(tv.Type, nil), "interface")
 	})
 	sort.Strings(bodies)
 	wantBodies := []string{
@@ -600,38 +714,124 @@ func ruleRouterFirstMatch(c *Ctx) {
 		c.und("router/first-match", 0, "RouterWorker.Process not found")
 		return
 	}
-	rs := rangeOver(fd.Body, func(x ast.Expr) bool { return strings.HasSuffix(exprString(x), ".sources") })
-	ok := false
-	if rs != nil {
-		// inside the loop: on a match, a completion with Matched: true is built and the function returns
-		ast.Inspect(rs.Body, func(n ast.Node) bool {
-			if ret, isRet := n.(*ast.ReturnStmt); isRet && len(ret.Results) == 1 {
-				matched := false
-				ast.Inspect(rs.Body, func(x ast.Node) bool {
-					if kv, isKv := x.(*ast.KeyValueExpr); isKv && exprString(kv.Key) == "Matched" && exprString(kv.Value) == "true" && kv.Pos() < ret.Pos() {
-						matched = true
+	info := pk.TypesInfo
+	isSources := func(x ast.Expr) bool { return strings.HasSuffix(exprString(x), ".sources") }
+	// the loop over the sources lives in Process or in a function of the package that Process calls
+	hd := fd
+	rs := rangeOver(fd.Body, isSources)
+	if rs == nil {
+		for _, call := range callsInDeep(fd.Body) {
+			if fn, isFn := calleeOf(info, call).(*types.Func); isFn && fn.Pkg() == pk.Types {
+				if d := funcDeclOf(pk, fn); d != nil && d.Body != nil {
+					if r := rangeOver(d.Body, isSources); r != nil {
+						hd, rs = d, r
 					}
-					return true
-				})
-				if matched {
-					ok = true
+				}
+			}
+		}
+	}
+	ok, why := false, "no loop over the configured sources"
+	if rs != nil {
+		// the call of the source and the variable that says whether it matched
+		var okVar types.Object
+		fObj := rangeValObj(info, rs)
+		ast.Inspect(rs.Body, func(n ast.Node) bool {
+			as, isAs := n.(*ast.AssignStmt)
+			if !isAs || len(as.Rhs) != 1 || len(as.Lhs) != 2 {
+				return true
+			}
+			if call, isCall := ast.Unparen(as.Rhs[0]).(*ast.CallExpr); isCall && isObj(info, call.Fun, fObj) && okVar == nil {
+				if id, isId := as.Lhs[1].(*ast.Ident); isId {
+					okVar = info.Defs[id]
+					if okVar == nil {
+						okVar = info.Uses[id]
+					}
 				}
 			}
 			return true
 		})
-	}
-	c.check(ok, "router/first-match", fd.Pos(), "sources are tried in order; the first match is returned", "the router no longer returns at the first matching source")
-	// after the loop: Matched: false
-	unmatched := false
-	if rs != nil {
-		ast.Inspect(fd.Body, func(n ast.Node) bool {
-			if kv, isKv := n.(*ast.KeyValueExpr); isKv && exprString(kv.Key) == "Matched" && exprString(kv.Value) == "false" && kv.Pos() > rs.End() {
-				unmatched = true
+		g := buildCFG(pk, hd.Body)
+		reachesHead := func(from *cfg.Block) bool {
+			seen := map[int32]bool{}
+			var walk func(b *cfg.Block) bool
+			walk = func(b *cfg.Block) bool {
+				if seen[b.Index] {
+					return false
+				}
+				seen[b.Index] = true
+				if b.Kind == cfg.KindRangeLoop && b.Stmt == ast.Stmt(rs) {
+					return true
+				}
+				for _, sc := range b.Succs {
+					if walk(sc) {
+						return true
+					}
+				}
+				return false
 			}
-			return true
-		})
+			return walk(from)
+		}
+		nTests := 0
+		ok, why = true, ""
+		for _, b := range g.Blocks {
+			if len(b.Succs) != 2 || len(b.Nodes) == 0 || okVar == nil {
+				continue
+			}
+			cond, isExpr := b.Nodes[len(b.Nodes)-1].(ast.Expr)
+			if !isExpr {
+				continue
+			}
+			cond = ast.Unparen(cond)
+			neg := false
+			if u, isU := cond.(*ast.UnaryExpr); isU && u.Op == token.NOT {
+				neg, cond = true, ast.Unparen(u.X)
+			}
+			if !isObj(info, cond, okVar) || cond.Pos() < rs.Body.Pos() || cond.End() > rs.Body.End() {
+				continue
+			}
+			// only the test that directly follows the source call decides (ok is reused for coerce)
+			if nTests > 0 {
+				continue
+			}
+			nTests++
+			matched, missed := b.Succs[0], b.Succs[1]
+			if neg {
+				matched, missed = missed, matched
+			}
+			if reachesHead(matched) {
+				ok, why = false, "after a source matched the loop goes on to the next source (the first match no longer decides)"
+			}
+			if !reachesHead(missed) {
+				ok, why = false, "a source that does not match ends the search (later sources are never consulted)"
+			}
+		}
+		if okVar == nil || nTests == 0 {
+			ok, why = false, "the match test of the source call was not found"
+		}
 	}
-	c.check(unmatched, "router/no-match", fd.Pos(), "no source matched ⇒ Matched: false", "the router no longer answers Matched: false when no source matched")
+	c.check(ok, "router/first-match", hd.Pos(), "sources are tried in order; the first match ends the search, a miss goes on to the next source", "router: "+why)
+	// both outcomes are answered: a completion with Matched: true and one with Matched false
+	hasTrue, hasFalse := false, false
+	ast.Inspect(fd.Body, func(n ast.Node) bool {
+		cl, isCl := n.(*ast.CompositeLit)
+		if !isCl || !isNamed(info.Types[cl].Type, pkgTAio, "RouterCompletion") {
+			return true
+		}
+		m := "false"
+		for _, el := range cl.Elts {
+			if kv, isKv := el.(*ast.KeyValueExpr); isKv && exprString(kv.Key) == "Matched" {
+				m = exprString(kv.Value)
+			}
+		}
+		if m == "true" {
+			hasTrue = true
+		}
+		if m == "false" {
+			hasFalse = true
+		}
+		return true
+	})
+	c.check(hasTrue && hasFalse, "router/no-match", fd.Pos(), "a match answers Matched: true, no match answers Matched: false", "the router no longer answers Matched: false when no source matched (or never answers Matched: true)")
 	// coerce
 	co := funcDecl(pk, "", "coerce")
 	if co == nil {
